@@ -29,7 +29,17 @@ static std::string shape(gr_face *face, gr_font *font, const std::vector<uint32_
     std::string d = dump(seg, font, face);
     // feature queries on the shared face from every thread as well
     unsigned nf = gr_face_n_fref(face);
-    if (nf) { const gr_feature_ref *r = gr_face_fref(face, (gr_uint16)(t.size() % nf)); d += " f" + std::to_string(gr_fref_id(r)) + ":" + std::to_string(gr_fref_n_values(r)); }
+    if (nf) {
+        const gr_feature_ref *r = gr_face_fref(face, (gr_uint16)(t.size() % nf));
+        d += " f" + std::to_string(gr_fref_id(r)) + ":" + std::to_string(gr_fref_n_values(r));
+        // label queries go through the name table, which a preloadAll face must already hold
+        gr_uint16 lang = 0x0409; gr_uint32 len = 0;
+        void *l = gr_fref_label(r, &lang, gr_utf8, &len);
+        if (l) { d += " L" + std::to_string(len); gr_label_destroy(l); }
+        if (gr_fref_n_values(r)) { lang = 0x0409; len = 0; void *v = gr_fref_value_label(r, 0, &lang, gr_utf16, &len); if (v) { d += " V" + std::to_string(len); gr_label_destroy(v); } }
+        gr_feature_val *fv = gr_face_featureval_for_lang(face, 0);
+        if (fv) { d += " v" + std::to_string(gr_fref_feature_value(r, fv)); gr_featureval_destroy(fv); }
+    }
     gr_seg_destroy(seg);
     return d;
 }
